@@ -576,6 +576,7 @@ func ruleC17(r *Report) {
 	r.Rule("C17.redirect", "the final redirect goes to the configured default, to the URI of the authentic tracked request named by RelayState, or to RelayState itself only when no cookie exists and IdP-initiated login is allowed", 1)
 	r.Rule("C17.order", "tracking cookie cleared (nil error) before the session is created; session created (nil error) before the redirect; response parsed and assertion handler passed before any session is created", 1)
 	r.Rule("C17.cookie-flags", "session cookie HttpOnly/Secure follow the provider settings whose defaults are HttpOnly=true and Secure on https; tracking cookie is HttpOnly, Secure on https, scoped to the ACS path and named prefix+signed index", 4)
+	r.Rule("C17.track-uri", "the URI recorded in the tracking cookie at flow start is the URL of the request that started the flow (its URL or RequestURI), not a header, form value or other client-chosen text", 1)
 	r.Rule("C17.lifetime", "tracking lifetime is exactly saml.MaxIssueDelay (codec and cookie) and tracking tokens expire at TimeNow() + 1*MaxAge", 1)
 
 	m := &spModel{P: p}
@@ -589,6 +590,85 @@ func ruleC17(r *Report) {
 	checkRedirect(r, p, "C17.redirect", "C17.order")
 	checkCookieFlags(r, p, "C17.cookie-flags")
 	checkLifetime(r, p, "C17.lifetime")
+	checkTrackURI(r, p, "C17.track-uri")
+}
+
+// checkTrackURI: every value stored as TrackedRequest.URI under the tracker's TrackRequest (and the unexported helpers
+// it is split into) is the String()/RequestURI() of the URL field, or the RequestURI field, of the *http.Request the
+// method received.
+func checkTrackURI(r *Report, p *Prog, rule string) {
+	root := p.MustFunc("samlsp", "CookieRequestTracker", "TrackRequest")
+	r.Fn(p.FnName(root))
+	rg := NewRegion(p, root, 3)
+	isRootReq := func(v RV) bool {
+		os := rg.Origins(v)
+		if len(os) == 0 {
+			return false
+		}
+		for _, o := range os {
+			prm, ok := o.V.(*ssa.Parameter)
+			if !ok || prm.Parent() != root || !typeIs(prm.Type(), "net/http", "Request") {
+				return false
+			}
+		}
+		return true
+	}
+	reqField := func(v RV, field string) bool {
+		os := rg.Origins(v)
+		if len(os) == 0 {
+			return false
+		}
+		for _, o := range os {
+			ld, ok := o.V.(*ssa.UnOp)
+			if !ok || ld.Op != token.MUL {
+				return false
+			}
+			fa, ok := ld.X.(*ssa.FieldAddr)
+			if !ok || fieldName(fa.X.Type(), fa.Field) != field || !isRootReq(RV{V: fa.X, C: o.C}) {
+				return false
+			}
+		}
+		return true
+	}
+	n := 0
+	rg.Each(func(x RI) {
+		st, ok := x.I.(*ssa.Store)
+		if !ok {
+			return
+		}
+		fa, ok := st.Addr.(*ssa.FieldAddr)
+		if !ok || !typeIs(fa.X.Type(), modPath+"/samlsp", "TrackedRequest") || fieldName(fa.X.Type(), fa.Field) != "URI" {
+			return
+		}
+		n++
+		cons := fmt.Sprintf("%s: TrackedRequest.URI recorded at flow start", p.FnName(x.C.fn))
+		bad := ""
+		os := rg.Origins(RV{V: st.Val, C: x.C})
+		for _, o := range os {
+			okO := false
+			switch y := o.V.(type) {
+			case *ssa.Call:
+				if sc := y.Call.StaticCallee(); sc != nil && len(y.Call.Args) == 1 {
+					switch sc.String() {
+					case "(*net/url.URL).String", "(*net/url.URL).RequestURI":
+						okO = reqField(RV{V: y.Call.Args[0], C: o.C}, "URL")
+					}
+				}
+			case *ssa.UnOp:
+				okO = reqField(o, "RequestURI")
+			}
+			if !okO {
+				bad = o.V.String()
+				if in, ok := o.V.(ssa.Instruction); ok {
+					bad += " at " + p.InstrPos(in)
+				}
+			}
+		}
+		r.Check(len(os) > 0 && bad == "", rule, cons, p.InstrPos(st), fmt.Sprintf("all %d sources are the URL of the request that started the flow", len(os)), "the recorded return URI has a source that is not the starting request's own URL: "+bad)
+	})
+	if n == 0 {
+		r.Bad(rule, p.FnName(root)+": TrackedRequest.URI recorded at flow start", p.Pos(root.Pos()), "no store to TrackedRequest.URI found under TrackRequest")
+	}
 }
 
 func checkTracker(r *Report, p *Prog, rule string) {
